@@ -5,6 +5,7 @@ package bubble
 
 import (
 	"context"
+	"os"
 	"encoding/binary"
 	"errors"
 	"fmt"
@@ -245,6 +246,7 @@ func (n *Net) decide(ri *ReqInfo) Rule {
 		}
 		if n.sameAt > lim && !n.Spin {
 			n.Spin, n.SpinKey = true, ri.Key
+			fmt.Fprintf(os.Stderr, "faultnet: SPIN watchdog fired: >%d requests at one virtual instant, last key %d\n", lim, ri.Key)
 		}
 	} else {
 		n.lastAt, n.sameAt = now, 0
